@@ -26,6 +26,11 @@ def make(p):
     n, d, nv = p['n'], p['d'], p['nval']
     X = torch.randn(n, d, generator=g)
     Xv = torch.randn(nv, d, generator=g) * p.get('val_spread', 1.0)
+    if p.get('grid'):
+        # integer-valued features (counts, categories coded as numbers): projections on a coordinate axis are exact and tie
+        # with the split point; an extra column that the split direction ignores keeps the training rows pairwise distinct
+        X = torch.cat([torch.randint(-3, 4, (n, d - 1), generator=g).float(), torch.arange(n).float()[:, None] * 0.001], dim=1)
+        Xv = torch.cat([torch.randint(-3, 4, (nv, d - 1), generator=g).float(), -1.0 - torch.arange(nv).float()[:, None] * 0.001], dim=1)
     if p['task'] == 'reg':
         y = torch.sin(X[:, :1]) + 0.1 * torch.randn(n, p['outputs'], generator=g)
         yv = torch.sin(Xv[:, :1]) + 0.1 * torch.randn(nv, p['outputs'], generator=g)
@@ -46,6 +51,9 @@ def make(p):
         gv = torch.Generator().manual_seed(p['dseed'] + 99)
         v = torch.randn(d, generator=gv) * float(torch.randint(1, 4, (1,), generator=gv))
         v[p['dseed'] % d] += 2.0
+        if p.get('grid'):
+            v = torch.zeros(d)
+            v[p['dseed'] % (d - 1)] = [1.0, -1.0, 2.0][p['dseed'] % 3]
         kw['fixed_vector'] = v
     return X, y, Xv, yv, kw
 
@@ -109,6 +117,41 @@ def analyse(p, m, X, y, Xv):
         cap = 0 if (not path) else (0 if nroute > p['refill'] else min(p['refill'] - nroute, int(msize * 0.2)))
         if len(moved) > max(cap, 0):
             fails.append(('C07:moved-count', f'leaf {ps!r}: {len(moved)} samples moved, bound {cap} (routed {nroute}, refill {p["refill"]}, size {msize})'))
+    # --- the routed validation points of every leaf are the caller's points sent down the stored tree by the rule that
+    # prediction uses (projection <= split_point goes left); rows within rounding distance of a threshold are left out,
+    # except on the integer grid where projections are exact
+    from collections import Counter
+    exact = bool(p.get('grid'))
+    want, near = {}, Counter()
+    for j in range(Xv.shape[0]):
+        node, ps, close = m.trees[0], '', False
+        while node['type'] != 'leaf':
+            v = node['split_direction'].detach().cpu()
+            b = float(node['split_point'])
+            pr = float(Xv[j] @ v) if exact else float(Xv[j].double() @ v.double())
+            if not exact and abs(pr - b) <= 1e-5 * (float(v.norm()) * float(Xv[j].norm()) + abs(b)) + 1e-12:
+                close = True
+                break
+            side = 'left' if pr <= b else 'right'
+            ps += '0' if side == 'left' else '1'
+            node = node[side]
+        k = xrec.row_key(Xv[j])
+        if close:
+            near[k] += 1
+        else:
+            want.setdefault(ps, Counter())[k] += 1
+    for path, node in xrec.walk(root):
+        if node['type'] == 'split':
+            continue
+        ps = ''.join(str(b) for b in path)
+        got = Counter(node['val_keys'])
+        for k in near:
+            got.pop(k, None)
+        exp = want.get(ps, Counter())
+        if got != exp:
+            fails.append(('C07:validation-not-routed-like-predict', f'leaf {ps!r}: {sum((exp - got).values())} caller validation point(s) that the '
+                          f'stored tree sends here (projection <= split_point goes left) are not in its validation set, '
+                          f'{sum((got - exp).values())} point(s) of its validation set are sent elsewhere'))
     allidx = [i for c, mv, _ in impl.values() for i in c + mv]
     if p['f'] == 0.0:
         if sorted(allidx) != list(range(n)):
@@ -194,6 +237,12 @@ def gen_cases(run):
             val_spread=r.choice([1.0, 1.0, 0.05, 3.0]), method=method, task=task, outputs=r.randint(1, 2),
             classes=r.randint(2, 4), mode=r.choice(['zero_one', 'prevalence']), stub=not (real or method in REAL_METHODS),
             iters=r.choice([0, 0, 1]), dseed=r.randint(0, 10 ** 6)))
+    # integer-grid data with a coordinate-axis direction: validation projections tie with the split point exactly
+    for k in range(8 if run.tier == 'quick' else 60):
+        L = r.choice([8, 12, 16])
+        cases.append(dict(family='recorded-fits', n=r.randint(3 * L, 8 * L), d=r.randint(3, 5), L=L, f=0.0, nsplits=None,
+                          refill=r.choice([1, 5, L]), nval=r.choice([20, 60, 150]), val_spread=1.0, method='fixed_vector', task='reg',
+                          outputs=1, classes=2, mode='zero_one', stub=True, iters=0, dseed=r.randint(0, 10 ** 6), grid=True))
     # C07's proviso: every leaf ends with a non-empty validation set -> with real leaves keep leaves >= 5 samples
     for c in cases:
         if not c['stub']:
